@@ -76,13 +76,18 @@ AnnotationFails(e, dm, dv, chain) ==
      ELSE Chk("C08:FeaturesInherited", \E k \in ks : judged[k].inherit)
           \cup Chk("C09:SourcesTile", \E k \in ks : judged[k].tile)
           \cup Chk("C09:SourcesVerbatim",
+                   \* the plasmids a source feature may name: the inputs of this call and, in a multi-level history, the
+                   \* inputs of the earlier levels (inner provenance nested inside the outer one)
+                   LET named == {<<x.id, x.seq>> : x \in {e.vec} \cup SeqToSet(e.mods)}
+                                \cup (IF "origins" \in DOMAIN e THEN {<<o.id, o.seq>> : o \in SeqToSet(e.origins)} ELSE {})
+                   IN
                    \A i \in 1..Len(out.feats) :
                       LET g == out.feats[i] IN
-                      (g.type = "source" /\ Len(g.parts) = 1 /\ \E x \in {e.vec} \cup SeqToSet(e.mods) : x.id = g.plasmid) =>
-                         \E x \in {e.vec} \cup SeqToSet(e.mods) :
-                            x.id = g.plasmid /\ LET ix == g.parts[1].idx
+                      (g.type = "source" /\ Len(g.parts) = 1 /\ \E x \in named : x[1] = g.plasmid) =>
+                         \E x \in named :
+                            x[1] = g.plasmid /\ LET ix == g.parts[1].idx
                                                    txt == [q \in 1..Len(ix) |-> out.seq[(IF g.parts[1].st = -1 THEN ix[Len(ix) + 1 - q] ELSE ix[q]) + 1]]
-                                               IN OccursCirc(txt, x.seq))
+                                               IN OccursCirc(txt, x[2]))
           \cup Chk("C10:RefsOnceAndSameTarget",
                    /\ \E k \in ks : judged[k].cites
                    /\ \A i, j \in 1..Len(out.refs) : i # j => out.refs[i] # out.refs[j]
